@@ -1,26 +1,26 @@
 package main
 
 import (
-	"regexp"
 	"bytes"
 	"context"
 	"fmt"
 	"os"
 	"os/exec"
 	"path/filepath"
+	"regexp"
 	"strings"
 	"sync"
 	"time"
 )
 
 type SolveResult struct {
-	Status  string // "unsat", "sat", "unknown", "timeout", "error"
-	Solver  string
-	TimeS   float64
-	Output  string
-	File    string
-	Bytes   int
-	Tried   []string
+	Status string // "unsat", "sat", "unknown", "timeout", "error"
+	Solver string
+	TimeS  float64
+	Output string
+	File   string
+	Bytes  int
+	Tried  []string
 }
 
 type solverSpec struct {
